@@ -25,7 +25,7 @@ func init() {
 		Explanation: "Decides structural necessary conditions only. D1 index-space consistency: the key of a range over a re-sliced slice S[k:], k ≠ 0, is never used bare as an index into S nor passed as a committee index. D2 no map iteration order reaches a transaction witness: nothing is written into (an alias of) an InvocationScript inside a range over a map. " +
 			"D3 single deployer: every tryDeploy/tryTransfer flag is computed as 'local committee index == 0' (or '== loop index' for the per-member Alphabet contracts), every deploying/funding submission is dominated by the true side of its flag, the committee is sorted before the local index is computed, the NNS stage dominates the Notary stage and every contract synchronisation. " +
 			"D4 restartability: package deploy imports nothing that can persist process-external progress (decisions can only come from the chain). D5 codec layout: encoder and decoder of the shared transaction data agree on (field, offset, width, byte order) and on the total length; both checksum helpers hash the same bytes and use the same prefix length. " +
-			"D6 names: the domain names used by the deployment equal rpc/nns names and the names the contracts resolve; the TLD constant is equal in common, rpc/nns and deploy. D7 cache invalidation: a closure that invalidates the shared transaction (stores nil into it) also clears every captured collection whose entries were validated against that transaction.",
+			"D6 names: the domain names used by the deployment equal rpc/nns names and the names the contracts resolve; the TLD constant is equal in common, rpc/nns and deploy. D7 cache invalidation: a closure that invalidates the shared transaction (stores nil into it) also clears every captured collection whose entries were validated against that transaction. D8 Transaction.Nonce/ValidUntilBlock depend on a chain height only through h/c or h − h%c (SSA taint). D9 stated constant: the typed constant a call is made with agrees with the one its error wrap names (positive control embedded).",
 		NotCovered: "termination and convergence under all schedules and crash points, the n-member end-to-end run, divideFundsEvenly and the nonce/validity-window helper as functions of run-time integers: these need execution or model checking and are declared not applicable to this family (the property's suggested verif hook is therefore not used). Observed, not armed: distributeNEOToAlphabetContracts submits without an isPending guard; the leader tick guards the designation send with registerDomainTxMonitor and never resets triedDesignateRoleTx.",
 		Run:        runC13,
 	})
